@@ -254,6 +254,12 @@ def join_kind(k1, k2):
     return 'bi'
 
 
+def tries_forced_reshape(node, nodes):
+    a = node['args'][0]
+    return any(n.get('args') and n['args'][0] == a and n['op'] in ('getitem', 'sum', 'trace',
+                                                                   'diag') for n in nodes[:-1])
+
+
 def gen_case(rng, idx, tier):
     front = 'ro' if rng.random() < 0.6 else 'dro'
     maxnd = 3 if tier == 'quick' else 4
@@ -283,6 +289,7 @@ def gen_case(rng, idx, tier):
     nops = int(rng.integers(1, maxops + 1))
     want_reject = rng.random() < 0.04
     tries = 0
+    forced = []
     while len(nodes) - nleaf < nops and tries < 60:
         tries += 1
         live = [i for i, n in enumerate(nodes) if not n.get('np_raises')
@@ -292,10 +299,17 @@ def gen_case(rng, idx, tier):
             i0 = live[-1]
         else:
             i0 = live[int(rng.integers(len(live)))]
+        r = rng.random()
+        if forced:
+            # cache probe: a node that was already read (indexed / summed) is reshaped and
+            # read again through the new shape
+            fop, fi = forced.pop(0)
+            if fi in live:
+                i0 = fi
+                r = 0.12 if fop == 'reshape' else 0.3
         n0 = nodes[i0]
         s0 = list(shapes[i0].shape)
         kind = n0['kind']
-        r = rng.random()
         node = None
         if r < 0.05:
             node = {'op': 'neg', 'args': [i0], 'kind': kind}
@@ -418,6 +432,12 @@ def gen_case(rng, idx, tier):
                 continue
             nodes.append(node)
             shapes.append(np.zeros(res.shape))
+            if node['op'] in ('getitem', 'sum', 'trace', 'diag') and not forced and \
+                    rng.random() < 0.35 and shapes[node['args'][0]].size > 1:
+                forced += [('reshape', node['args'][0])]
+            elif node['op'] == 'reshape' and tries_forced_reshape(node, nodes) and \
+                    rng.random() < 0.8:
+                forced += [('getitem', len(nodes) - 1)]
         except Exception:
             if want_reject:
                 node['np_raises'] = True
